@@ -242,13 +242,16 @@ class ServiceModel:
         d_ = int(plan.get('delta', 0))
         self._ev('over_deliveries' if d_ > 0 else ('under_deliveries' if d_ < 0 else 'exact_deliveries'))
     fault = plan.get('raise') if (need_policy and algo == STUB) else None
+    if need_policy and algo == STUB and c.get('_factory_fault'):
+      fault = 'factory:' + c['_factory_fault']['raise']
     if fault:
       # documented: failure reported as finished operation carrying an error
       if not (oresp['done'] and oresp['error']):
         disc.append(f'algorithm raised {fault} but operation is done={oresp["done"]} error={oresp["error"]}')
       # REQUESTED trials handed to the worker before the failure stay ACTIVE: follow datastore
       ops.append({'name': oresp['name'], 'done': oresp['done']})
-      self.policy_calls += 1
+      if not str(fault).startswith('factory:'):
+        self.policy_calls += 1
       # the pool trials were assigned before the algorithm ran
       self._assign_pool(st, pool, own_active, n, client, None, disc, partial=True)
       return disc
